@@ -282,7 +282,11 @@ class CheckC11(core.Check):
                 continue
             want, turn, fin, phase = exp[int(e.label)]
             if e.panic:
-                r.foreign_dev("C10", "panic at %s" % e.op)
+                if want == "ok" or want.startswith("err:"):
+                    # the result of this call is C11's own predicate: a panic is neither Ok nor the documented state error
+                    r.viol("C11|panic|%s|%s" % (e.op, want), "%s: %s (op %s) panicked where %s was due: %s" % (name, e.op, e.label, want, e.res[:120]))
+                else:
+                    r.foreign_dev("C10", "panic at %s" % e.op)
                 return r
             if e.skipped:
                 r.inconclusive.append("op %s of case %s was skipped (%s): generator out of sync" % (e.label, case.id, e.res))
@@ -290,7 +294,11 @@ class CheckC11(core.Check):
             o = e.obs()
             if want == "ok":
                 if not e.ok:
-                    r.viol("C11|refused|%s|%s" % (e.op, e.res), "%s: in-phase valid %s (op %s) refused with %s" % (name, e.op, e.label, e.res))
+                    if e.errkind().startswith("State("):
+                        r.viol("C11|refused|%s|%s" % (e.op, e.res), "%s: in-phase valid %s (op %s) refused with the state error %s" % (name, e.op, e.label, e.res))
+                    else:
+                        # refused for a cryptographic / framing reason: not the state machine's doing
+                        r.foreign_dev("C02", "in-phase valid %s failed with %s" % (e.op, e.errkind()))
                     return r
                 r.stats["in_phase_calls_judged"] += 1
             elif want.startswith("err:"):
